@@ -4,7 +4,7 @@ from . import kxlib
 def main():
     keep = "--keep" in sys.argv
     filters = [a for a in sys.argv[1:] if not a.startswith("--")]
-    root, dst = kxlib.prepare()
+    root, dst = kxlib.prepare(only_modules=kxlib.modules_for(filters))
     try:
         r = kxlib.run_kani(dst, filters, jobs=12, timeout=3000, harness_timeout=next((a[5:] for a in sys.argv if a.startswith('--ht=')), None))
         print("rc", r["rc"], "wall %.1f" % r["wall_s"], "compile_error:", r["compile_error"])
